@@ -147,6 +147,16 @@ def _run_case(case, ctx):
             ok = False
         finally:
             os.remove(path)
+    if ok and specs and sum(len(s_["data"]) for s_ in specs) < 40000:
+        # the same stream handed over as bytes / bytearray (what open(path, "rb").read() gives) instead of a list of integers
+        for conv in (bytes, bytearray):
+            fm = "%s.buffer-%s" % (form, conv.__name__)
+            try:
+                ctx.mon("reader.list_files.bytes-like-buffer")
+                ok = compare_listing(ctx, "C06", "tape-roundtrip", fm, CassetteFile(buffer=conv(written)).list_files(), specs, wit) and ok
+            except Exception as e:
+                ctx.violation("tape-roundtrip", fm, "READER-RAISED:%s" % type(e).__name__, dict(wit, error=str(e)[:100]), prop="C06")
+                ok = False
     if ok and listed:
         # second generation: the files just listed are themselves a list of files - write them to a new tape and list again
         # (what a tape-to-tape copy and --append do); the reference parser judges the second tape too
